@@ -642,7 +642,7 @@ fn run_shard(
     cfg.failure_persistence = None;
     cfg.rng_seed = RngSeed::Fixed(mix(seed, name, shard as u64));
     cfg.max_shrink_iters = 3000;
-    cfg.max_shrink_time = 0;
+    cfg.max_shrink_time = 20_000;
     cfg.verbose = 0;
     cfg.max_local_rejects = u32::MAX;
     cfg.max_global_rejects = u32::MAX;
